@@ -305,3 +305,50 @@ def r7(cx):
         raise AnchorMissing("flush_immutable_to_sst no longer holds the manifest write lock")
     for c in ap + rm:
         cx.check(c.bb in gsm[0].region, "flush: `%s` happens under the manifest write lock" % c.primary.split("::")[-1], "flush-swap-unlocked|%s" % c.primary.split("::")[-1], c.where())
+
+
+@rule("C01", "C01.R3", "compaction keeps every version an open snapshot reads (decision table)")
+def r3(cx):
+    from . import compaction as cp
+    rows, info = cp.table(cx.f)
+    cx.note("decision region %s: %d paths, %d rows" % (info["region_start"], info["paths"], info["rows"]))
+    cx.table("compaction per-version decision", [[str(dict(sorted(c.items()))), str(o)] for c, o, _ in rows])
+    cp.check_obligation(cx, rows, "a live version that an open snapshot reads and that is not superseded inside its visibility boundary is written to the output",
+                        lambda t: (not t["hard_delete"]) and t["cur_vis"] == "Bounded" and not cp.superseded(t), True,
+                        "snapshot-version-dropped",
+                        "compaction drops a version that is the one an open snapshot reads (no newer version in the same visibility boundary): the reader loses its value "
+                        "(all failing combinations have `latest version is a hard delete at the bottom level`, which discards every version of the key before snapshots are consulted)",
+                        info["region_start"])
+    cp.check_obligation(cx, rows, "a version is only treated as superseded when a newer version exists in the same visibility boundary",
+                        lambda t: t["cur_vis"] == "Bounded" and t["is_latest"] and not t["hard_delete"], True, "latest-snapshot-version-dropped",
+                        "the newest version visible to a snapshot is dropped", info["region_start"])
+    # the boundary test itself: equal bounded snapshots / both newer / both none
+    from ..e3 import Region
+    sb = cx.f.body("CompactionIterator::same_visibility_boundary")
+    leaves = Region(sb, 0, force_bool_return=True).run()
+    tab = {}
+    for lf in leaves:
+        a = lf.cond.get("variant(p2)")
+        b_ = lf.cond.get("variant(p3)")
+        rel = [v for k, v in lf.cond.items() if k.startswith("rel(")]
+        tab[(a, b_, rel[0] if rel else None)] = lf.ret[1] if lf.ret and lf.ret[0] == "c" else None
+    cx.table("same_visibility_boundary", [[str(k), str(v)] for k, v in sorted(tab.items(), key=str)])
+    good = True
+    for (a, b_, rel), v in tab.items():
+        if a == "BoundedBySnapshot" and b_ == "BoundedBySnapshot":
+            want = 1 if rel == "eq" else 0
+        elif a == b_ and a in ("NewerThanAllSnapshots", "NoActiveSnapshots"):
+            want = 1
+        elif a is None or b_ is None:
+            want = 0
+        else:
+            want = 0
+        if v != want:
+            good = False
+    cx.check(good and len(tab) >= 5, "same_visibility_boundary: equal bounded snapshot / both newer / both none, nothing else", "same-boundary-table", sb.where(),
+             "same_visibility_boundary table differs from the oracle: %s" % sorted(tab.items(), key=str))
+    mb = cx.f.body("CompactionIterator::must_preserve_for_snapshot")
+    lv = Region(mb, 0, force_bool_return=True).run()
+    t2 = {lf.cond.get("variant(p2)"): (lf.ret[1] if lf.ret and lf.ret[0] == "c" else None) for lf in lv}
+    cx.check(t2.get("BoundedBySnapshot") == 1 and all(v == 0 for k, v in t2.items() if k != "BoundedBySnapshot") and len(t2) >= 2,
+             "must_preserve_for_snapshot <=> visibility is bounded by a snapshot", "must-preserve-table", mb.where(), "must_preserve_for_snapshot table: %s" % t2)
